@@ -19,15 +19,23 @@
 // redirect URIs in flight on the one provider, their steps interleaved over both
 // routers, some delivering responses cut off, reloads after them. Every response
 // is judged against the redirect URIs of the request it belongs to.
+//
+// A second product (overlap.go) makes two requests of two different clients OVERLAP on
+// one provider: one request is parked at its k-th yield point (every OpenTelemetry span
+// of the library, every storage call, every getter of the client object), for every k,
+// while the other one is served completely; the redirect_uri of each is drawn relative
+// to both registrations (its own, or one only the client next to it registered). Each
+// response is judged exactly as a sequential one.
 package main
 
 import (
 	"verif/internal/ev"
+	"verif/internal/sched"
 )
 
 func main() {
 	run := ev.Start("C03", "exploration")
-	run.SetRule("case = generated client registration + provider config; per case a fixed number of request chains (authorize -> login -> callbacks), each executed on the Provider router and the LegacyServer router; then a fixed number of histories (3-6 interleaved authorization requests of the generated client, 'other' and 'peer' on the same provider, callbacks with write faults at the ResponseWriter and reloads); every HTTP response of a chain or history is one evaluation; distinct = distinct vectors (router, application type, dev mode, glob class, response-type class, requested-URI kind, trigger[+callback fault], phase, response mode) of responses that were judged")
+	run.SetRule("case = generated client registration + provider config; per case a fixed number of request chains (authorize -> login -> callbacks), each executed on the Provider router and the LegacyServer router; then a fixed number of histories (3-6 interleaved authorization requests of the generated client, 'other' and 'peer' on the same provider, callbacks with write faults at the ResponseWriter and reloads); after all of these, on one worker, a second product of overlap cases (two generated registrations + 'other' + 'peer' on one provider; request a = authorize or callback of one client is served alone, then parked at each of its yield points k in turn while request mid = authorize or callback of another client is served completely; redirect_uri of each drawn from its own registration or from the registration of the client next to it); every HTTP response of a chain, history or overlap is one evaluation; distinct = distinct vectors (router, application type, dev mode, glob class, response-type class, requested-URI kind, trigger[+callback fault], phase, response mode) of responses that were judged")
 	run.Assume("vstore refuses CreateAuthRequest for prompt=none with login_required (a redirectable error)",
 		"'confidential client' in the http clause is read as application type web (DESIGN.md 6/C03); a web client with auth method none using http + code is counted as grey",
 		"native loopback twin = same path and query as a registered http(s) loopback URI (DESIGN.md); twins that also differ in userinfo/fragment/path spelling are counted as grey",
@@ -47,14 +55,40 @@ func main() {
 		"form_post-after-broken-write:provider", "form_post-after-broken-write:legacy",
 		"form_post-after-broken-write-of-other-client:provider", "form_post-after-broken-write-of-other-client:legacy",
 	)
+	for _, rn := range []string{"provider", "legacy"} {
+		// overlap.go: a run in which no request was parked where the client's lists are read, or in which the hostile
+		// combination (a URI only the client of the request in flight next to it registered) never met such a point,
+		// has not explored what this part is for
+		run.Mandatory(
+			"overlap:parked-at-every-point:"+rn, "overlap:parked-at-library-span:"+rn, "overlap:parked-at-storage-call:"+rn,
+			"overlap:parked-in-glob-getter:"+rn,
+			"overlap:parked-request-with-counterparts-uri-refused:"+rn,
+			"overlap:parked-in-glob-getter-with-counterparts-uri-refused:"+rn,
+			"overlap:request-in-between-with-counterparts-uri-refused:"+rn,
+			"overlap:parked-callback-delivered-to-own-uri:"+rn, "overlap:callback-during-callback:"+rn,
+		)
+	}
+	sched.Install()
 	cases := run.N(15000, 240000)
+	overlaps := run.N(400, 6000)
 	const chains = 10
 	if rc := run.ReplayCase(); rc >= 0 {
-		runCase(run, int(rc), chains)
+		if rc >= overlapBase {
+			runOverlapCase(run, int(rc-overlapBase))
+		} else {
+			runCase(run, int(rc), chains)
+		}
 		run.Finish()
 	}
 	ev.Parallel(cases, 0, func(_ int, i int) {
 		runCase(run, i, chains)
+	})
+	// the overlap product runs after the main one and on ONE worker: while a goroutine is registered with
+	// internal/sched every yield point of every goroutine looks its registration up (runtime.Stack, which the runtime
+	// serialises on one lock - more workers make this part slower), and with no other case running a violation is a
+	// consequence of the forced overlap alone
+	ev.Parallel(overlaps, 1, func(_ int, j int) {
+		runOverlapCase(run, j)
 	})
 	run.Finish()
 }
